@@ -388,6 +388,8 @@ def run(rep):
     from ..engines import diag
     lf = core.library_facts()
     diag.run(rep, lf, "C05")
+    from . import C12
+    C12.eaten_rule(rep, lf, "C05.d")
     rep.units.update(os.path.relpath(t, core.REPO) for t in lf.tus)
     rep.undecided += ["the decoding/encoding code itself (second-byte ranges for E0/ED/F0/F4 leads, surrogate pairing, "
                       "block-boundary deferral, UTF-16/UCS-4 loops, ICU converters, BOM/declaration reconciliation): value-level, not applicable"]
